@@ -121,8 +121,15 @@ def strategy(tier):
     @st.composite
     def from_stmt(draw, allow_multiline=True, force_mapped=False):
         kind = "mapped" if force_mapped else \
-            draw(st.sampled_from(["mapped", "mapped", "mapped", "other", "relative"]))
+            draw(st.sampled_from(["mapped", "mapped", "mapped", "other", "relative", "v2"]))
         level = 0
+        if kind == "v2":
+            # an import the module already takes from the new package (half-migrated code): same names as the v1 ones
+            targets = sorted({t for d in mapping.values() for t in d.values()})
+            module, nm = draw(st.sampled_from(targets))
+            more = [n for (m, n) in targets if m == module]
+            names = [[n, None] for n in dict.fromkeys([nm] + draw(st.lists(st.sampled_from(more), max_size=2)))]
+            return ["from", module, 0, names, draw(st.sampled_from(["line", "paren"])), None]
         if kind == "other":
             module = draw(st.sampled_from(OTHER_MODULES))
         else:
